@@ -551,8 +551,10 @@ fn rel_secs(rng: &mut Rng) -> i64 {
     *rng.pick(&[1, 1, 2, 2, 3, 5, 100, 0, -1, i64::MAX / 1000, i64::MAX / 1000 + 1, i64::MAX, i64::MIN])
 }
 fn rel_ms(rng: &mut Rng, now: u64) -> i64 {
-    let near = i64::MAX - now as i64;
-    *rng.pick(&[1, 2, 499, 500, 501, 999, 1000, 1400, 1499, 1500, 1501, 2500, 10, 0, -1, i64::MAX, near, near + 1, i64::MIN])
+    // largest deadline used = i64::MAX - 600: beyond that Redis' own `(deadline+500)/1000`
+    // (EXPIRETIME) overflows, so there is no specified answer to conform to
+    let near = i64::MAX - now as i64 - 600;
+    *rng.pick(&[1, 2, 499, 500, 501, 999, 1000, 1400, 1499, 1500, 1501, 2500, 10, 0, -1, i64::MAX, near, near + 601, i64::MIN])
 }
 fn abs_secs(rng: &mut Rng, now: u64) -> i64 {
     let s = (now / 1000) as i64;
@@ -560,7 +562,7 @@ fn abs_secs(rng: &mut Rng, now: u64) -> i64 {
 }
 fn abs_ms(rng: &mut Rng, now: u64) -> i64 {
     let n = now as i64;
-    *rng.pick(&[n - 1, n, n + 1, n + 2, n + 499, n + 500, n + 1400, n + 1500, n + 3000, 0, -7, i64::MAX, i64::MIN])
+    *rng.pick(&[n - 1, n, n + 1, n + 2, n + 499, n + 500, n + 1400, n + 1500, n + 3000, 0, -7, i64::MAX - 600, i64::MIN])
 }
 fn index(rng: &mut Rng) -> isize {
     match rng.below(10) {
